@@ -272,6 +272,26 @@ class Resolver:
                     continue
                 stack.append(c)
 
+    def _inferred_return_types(self, f: FuncInfo) -> List[Tuple]:
+        """Types of what an unannotated package function returns: the union over its return expressions (instances
+        of package classes only; recursion and cycles give nothing)."""
+        cache = self.__dict__.setdefault("_ret_types", {})
+        if f.qualname in cache:
+            return cache[f.qualname] or []
+        cache[f.qualname] = None          # in progress
+        out: List[Tuple] = []
+        if not self._building:
+            for n in self._own_nodes(f):
+                if isinstance(n, ast.Return) and n.value is not None:
+                    try:
+                        out += [t for t in self.expr_types(n.value, f) if t[0] == "inst"]
+                    except RecursionError:
+                        pass
+            cache[f.qualname] = _dedup(out)
+        else:
+            del cache[f.qualname]         # provisional environment: do not remember
+        return _dedup(out)
+
     # ------------------------------------------------------------- expr types
     def expr_types(self, e: ast.expr, fn: FuncInfo) -> List[Tuple]:
         prog = self.prog
@@ -331,6 +351,8 @@ class Resolver:
             for f in ct.funcs:
                 if not f.is_lambda and f.node.returns is not None:
                     out += self.ann_types(f.module, f.node.returns)
+                elif not f.is_lambda:
+                    out += self._inferred_return_types(f)
             if ct.ext:
                 if ct.ext in ("builtins.tuple", "builtins.list", "builtins.filter", "builtins.sorted") and e.args:
                     return self.expr_types(e.args[-1], fn)
@@ -472,6 +494,10 @@ class Resolver:
             if not recv and not types:
                 # unknown receiver: name-based over-approximation
                 cands = [c.methods[f.attr] for c in prog.classes.values() if f.attr in c.methods]
+                if not cands and not self._building:
+                    for (cq, a), fs in self.stored_callables().items():
+                        if a == f.attr:
+                            cands.extend(x for x in fs if x not in cands)
                 if cands:
                     ct.funcs = cands
                     ct.unresolved = True
@@ -534,6 +560,11 @@ class Resolver:
         prog = self.prog
         # which (class, param index/name) of __init__ flows into self.attr
         sinks: Dict[str, List[Tuple[str, str]]] = {}  # init qualname -> [(param, attr)]
+        # attributes that are *called* somewhere (x.attr(...)) although no class defines a method of that name: a
+        # parameter stored under such a name holds a callable whether or not it is annotated as one
+        method_names = {m for c in prog.classes.values() for m in c.methods}
+        called_attrs = {n.func.attr for mod in prog.modules.values() for n in ast.walk(mod.tree)
+                        if isinstance(n, ast.Call) and isinstance(n.func, ast.Attribute)} - method_names
         for ci in prog.classes.values():
             init = ci.methods.get("__init__")
             if init is None:
@@ -547,7 +578,7 @@ class Resolver:
                 if tgt is not None and isinstance(tgt, ast.Attribute) and isinstance(tgt.value, ast.Name) \
                         and tgt.value.id == "self" and isinstance(val, ast.Name) and val.id in init.params:
                     ann = [a.annotation for a in init.node.args.args if a.arg == val.id][0]
-                    if ann is not None and "Callable" in node_src(ann):
+                    if (ann is not None and "Callable" in node_src(ann)) or (ann is None and tgt.attr in called_attrs):
                         sinks.setdefault(init.qualname, []).append((val.id, tgt.attr))
                         self._stored_callables.setdefault((ci.qualname, tgt.attr), [])
         if not sinks:
